@@ -60,6 +60,7 @@ func discharge(fx *FnExec, obls []*Obligation, opt dischargeOpts) {
 		script string
 		alts   []string
 		model  string
+		cases  []string
 	}
 	var jobs []job
 	c := fx.c
@@ -125,7 +126,11 @@ func discharge(fx *FnExec, obls []*Obligation, opt dischargeOpts) {
 				alts = append(alts, c.Query(ground, goal, nil, opt.timeoutMs))
 			}
 		}
-		jobs = append(jobs, job{o, script, alts, modelScript})
+		var cases []string
+		if !o.Cover {
+			cases, _ = caseQueries(fx, o, goal, vals, opt.timeoutMs)
+		}
+		jobs = append(jobs, job{o, script, alts, modelScript, cases})
 	}
 	sem := make(chan struct{}, opt.parallel)
 	var wg sync.WaitGroup
@@ -135,7 +140,46 @@ func discharge(fx *FnExec, obls []*Obligation, opt dischargeOpts) {
 		go func(j job) {
 			defer wg.Done()
 			defer func() { <-sem }()
-			r := Solve(j.script, opt.workdir, j.o.Name, opt.timeoutMs, opt.all)
+			var caseCh chan string
+			if !j.o.Cover && len(j.cases) > 0 {
+				// contract clause `split E`: the case queries run beside the plain query; the obligation is
+				// proved by the plain query or by ALL cases, whichever comes first
+				caseCh = make(chan string, 1)
+				go func() {
+					be := ""
+					for i, cs := range j.cases {
+						rc := Solve(cs, opt.workdir, fmt.Sprintf("%s.case%d", j.o.Name, i), opt.timeoutMs, false)
+						if rc.Status != "unsat" {
+							caseCh <- ""
+							return
+						}
+						be = rc.Backend
+					}
+					caseCh <- be + "+cases"
+				}()
+			}
+			var r SolveResult
+			if caseCh == nil {
+				r = Solve(j.script, opt.workdir, j.o.Name, opt.timeoutMs, opt.all)
+			} else {
+				t0 := time.Now()
+				mainCh := make(chan SolveResult, 1)
+				go func() { mainCh <- Solve(j.script, opt.workdir, j.o.Name, opt.timeoutMs, opt.all) }()
+				select {
+				case r = <-mainCh:
+					if r.Status != "unsat" && r.Status != "sat" {
+						if be := <-caseCh; be != "" {
+							r = SolveResult{Status: "unsat", Backend: be, Ms: time.Since(t0).Milliseconds()}
+						}
+					}
+				case be := <-caseCh:
+					if be != "" {
+						r = SolveResult{Status: "unsat", Backend: be, Ms: time.Since(t0).Milliseconds()}
+					} else {
+						r = <-mainCh
+					}
+				}
+			}
 			j.o.Status, j.o.Backend, j.o.Ms, j.o.Output = r.Status, r.Backend, r.Ms, r.Output
 			if r.Status == "sat" && !j.o.Cover {
 				if r2 := Solve(j.model, opt.workdir, j.o.Name+".model", opt.timeoutMs, false); r2.Status == "sat" {
@@ -306,4 +350,70 @@ func mentionsRng(t *Term, memo map[*Term]bool) bool {
 	}
 	memo[t] = r
 	return r
+}
+
+// caseQueries builds, for a function whose contract has `split E` clauses, one query per case (E / !E
+// combinations); an obligation the solvers leave undecided holds if it is proved in every case.
+func caseQueries(fx *FnExec, o *Obligation, goal *Term, vals []*Term, timeoutMs int) (scripts, models []string) {
+	if len(fx.splits) == 0 {
+		return nil, nil
+	}
+	c := fx.c
+	type cse struct {
+		cond *Term
+		sub  map[*Term]*Term
+		dis  [][2]*Term // pairs known to differ in this case
+	}
+	cases := []cse{{c.True(), nil, nil}}
+	for _, sp := range fx.splits {
+		var nx []cse
+		for _, cs := range cases {
+			// in the positive case of an equality between a symbol and a term the symbol is replaced by the
+			// term (and everything re-simplified): select-over-store on nested heaps then reduces syntactically
+			sub := map[*Term]*Term{}
+			for k, v := range cs.sub {
+				sub[k] = v
+			}
+			if sp.Op == "=" && len(sp.Args) == 2 {
+				a, b := sp.Args[0], sp.Args[1]
+				if len(a.Args) == 0 && a.Op != "bv" && a.Op != "true" && a.Op != "false" {
+					sub[a] = b
+				} else if len(b.Args) == 0 && b.Op != "bv" && b.Op != "true" && b.Op != "false" {
+					sub[b] = a
+				}
+			}
+			sub[sp] = c.True()
+			nsub := map[*Term]*Term{sp: c.False()}
+			for k, v := range cs.sub {
+				nsub[k] = v
+			}
+			var ndis [][2]*Term
+			ndis = append(ndis, cs.dis...)
+			if sp.Op == "=" && len(sp.Args) == 2 {
+				ndis = append(ndis, [2]*Term{sp.Args[0], sp.Args[1]})
+			}
+			nx = append(nx, cse{c.And(cs.cond, sp), sub, cs.dis}, cse{c.And(cs.cond, c.Not(sp)), nsub, ndis})
+		}
+		cases = nx
+	}
+	for _, cs := range cases {
+		as := append([]*Term{}, o.Assume...)
+		g := goal
+		c.distinct = map[[2]*Term]bool{}
+		for _, d := range cs.dis {
+			c.distinct[d] = true
+		}
+		if len(cs.sub) > 0 {
+			for i := range as {
+				as[i] = c.Subst(as[i], cs.sub)
+			}
+			g = c.Subst(g, cs.sub)
+		}
+		c.distinct = nil
+		as = append(as, cs.cond)
+		scripts = append(scripts, c.Query(as, g, nil, timeoutMs))
+		ms, _ := c.QueryGV(as, g, vals, timeoutMs)
+		models = append(models, ms)
+	}
+	return
 }
